@@ -27,6 +27,9 @@ def main(argv: list[str] | None = None) -> int:
         repo = Repo()
         chk.count("modules_parsed", len(repo.modules))
         mod.run(chk, repo)
+        if args.tier == "thorough" and not os.environ.get("VERIF_NO_SELFTEST"):
+            from .thorough import self_test
+            self_test(chk, pid)
 
     return run_check(pid, fn, args.tier)
 
